@@ -55,7 +55,7 @@ class Check(PropertyCheck):
     case_type = "(N * option (Z * N) * list N)"
     shard = 300
     rule = ("frames derived from valid responses and callbacks of the active version by truncation at every length, single-byte "
-            "flips, frame-id and sequence-number substitution, plus uniformly random byte strings and the empty frame; each with no "
+            "flips, frame-id and sequence-number substitution, frame ids defined only by other protocol versions (with their payloads), plus uniformly random byte strings and the empty frame; each with no "
             "pending command and with a pending command (same command, another command, same or other sequence number); after each "
             "frame the pending command is answered properly and a fresh command is run to completion; non-trivial = not the "
             "unmodified valid frame; distinct by (version, pending, bytes)")
@@ -104,6 +104,25 @@ class Check(PropertyCheck):
                     ofr = valid_frame(inst, other, seq, rng, "lo")
                     cases.append({"v": v, "pending": pname, "data": (ofr[:hdr_len] + fr[hdr_len:]).hex(), "kind": "idsub"})
                     cases.append({"v": v, "pending": pname, "data": (bytes([rng.randrange(256)]) + fr[1:]).hex(), "kind": "seqsub"})
+            # frame ids this version does not define but another version does (older commands removed, newer ones not
+            # yet known): payload valid for the version that defines it; none may be decoded, dispatched or complete a call
+            own_ids = {c[0] for c in cls.COMMANDS.values()}
+            foreign = {}
+            for ov, ocls in E.EZSP._BY_VERSION.items():
+                for oname, (oid, _otx, _orx) in ocls.COMMANDS.items():
+                    if oid not in own_ids and oid < (256 if v < 8 else 65536):
+                        foreign.setdefault(oid, (ov, oname))
+            fids = sorted(foreign)
+            if tier == "quick" and len(fids) > 12:
+                fids = rng.sample(fids, 12)
+            hdr_len = 3 if v == 4 else 5
+            for oid in fids:
+                ov, oname = foreign[oid]
+                oinst = E.EZSP._BY_VERSION[ov](lambda *a: None, None)
+                body = valid_frame(oinst, oname, 0, rng, "rand")[3 if ov == 4 else 5:]
+                hdr = bytes([0, 0x80, oid]) if v == 4 else bytes([0, 0x80, 0xFF, 0x00, oid]) if v < 8 else bytes([0, 0x80, 0x01, oid & 0xFF, oid >> 8])
+                for pname in (None, "getEui64"):
+                    cases.append({"v": v, "pending": pname, "data": (hdr + body).hex(), "kind": "foreign-id"})
             # EmberKeyStruct's deserialisation quirk: a remainder of exactly 24 bytes is padded (IPad in the model)
             for name in ("getKeyTableEntry", "getKey"):
                 if name in cls.COMMANDS:
@@ -232,6 +251,25 @@ class Check(PropertyCheck):
                 return f"pending command (seq 0, frame id {want:#x}) completed by a frame with seq {seq}, frame id {got:#x}"
         if f["cbs"] and f["p"] is not None:
             return "one frame both completed a command and was delivered as a callback"
+        import bellows.ezsp as E
+        v = case["v"]
+        data = bytes.fromhex(case["data"])
+        own = {c[0]: n for n, c in E.EZSP._BY_VERSION[v].COMMANDS.items()}
+        try:
+            fid = data[2] if v == 4 else data[4] if v < 8 else data[3] | data[4] << 8
+        except IndexError:
+            fid = None
+        for cb in f["cbs"]:
+            if cb[0] == "cbx":
+                return f"callback dispatched under the name {cb[1]!r}, which protocol version {v} does not define (frame id {fid!r})"
+            if cb[1] not in own:
+                return f"callback dispatched for frame id {cb[1]:#x}, which protocol version {v} does not define"
+            if cb[1] != fid:
+                return f"callback for frame id {cb[1]:#x} dispatched from a frame carrying id {fid!r}"
+        if fid is not None and fid not in own and case["pending"] is not None:
+            if a.get("p") is None or a["p"][0] != "ret":
+                return (f"a frame with id {fid:#x} (not defined by version {v}) made the pending command unanswerable: "
+                        f"its proper reply afterwards gave {a.get('p')}")
         return None
 
     def nontrivial(self, case, obs):
